@@ -13,7 +13,8 @@ EXPLANATION = ('(1) get_permitted_functions / validate_only_permitted_functions_
                '{blacklist, whitelist, whitelist=[None], required_functions, forbidden_strings, instructor_vars, numbered variables, suffixes, sibling '
                'variables} x {Formula, Numerical, Matrix, Sum graders, ordered lists}, for full- and partial-credit answers: every path must raise a '
                'student-facing error and never return a positive grade, while the author\'s own answer using the same construct is graded. '
-               '(3) forbidden strings with spaces inserted at every position.')
+               '(3) forbidden strings with spaces inserted at every position.'
+               ' Ordered lists of up to 12 boxes: no sibling_j name (multi-digit included) is usable by the student.')
 ASSUMPTIONS = ['the structural part (where a name can hide) is a generated finite catalogue; the solver\'s share is the sample values and the set memberships']
 BOUNDS = {'quick': 'universe of 3 default + 1 user function (all membership combinations); 60+ cheating formulas x 2 credit levels; spaces at every gap of two forbidden strings',
           'thorough': 'same (the catalogue is exhausted in the quick tier), samples=3'}
